@@ -73,6 +73,7 @@ SEEDS = [
 ]
 
 QUICK_SEEDS = [
+    ("ansi", "INSERT INTO t1 SELECT a FROM s1; INSERT INTO t2 SELECT b FROM s2"),  # edits at a statement boundary
     ("ansi", "INSERT INTO t1 (a) SELECT x.c FROM t2 x JOIN t3 ON 1 = 1"),
     ("ansi", "CREATE TABLE t1 AS SELECT CASE WHEN a > 0 THEN (SELECT max(b) FROM t3) ELSE 0 END AS c FROM t2"),
     ("ansi", "WITH c AS (SELECT a FROM t2) INSERT INTO t1 SELECT a FROM c"),
@@ -233,6 +234,19 @@ def _eval(task):
 
             if any(not observe.sqlfluff_accepts(s, dialect) for s in split(sql.strip())):
                 res["unparsable_but_analysed"] = True
+            elif "--" not in sql and "/*" not in sql and "#" not in sql and "{" not in sql:
+                # the same question with a splitter of the harness' own (semicolons outside quotes), so that a piece the
+                # library's splitter silently drops is still judged
+                pieces, cur = [], []
+                for t in tokens(sql):
+                    if t == ";":
+                        pieces.append("".join(cur))
+                        cur = []
+                    else:
+                        cur.append(t)
+                pieces.append("".join(cur))
+                if any(p.strip() and not observe.sqlfluff_accepts(p, dialect) for p in pieces):
+                    res["unparsable_but_analysed"] = True
     if o["kind"] == "library":
         res["exc"] = o["exc"]
     return res
